@@ -458,3 +458,53 @@ def expand_locals(fn, expr: ast.AST, keep: set, depth: int = 3) -> ast.AST:
             return n
 
     return T(depth).visit(copy.deepcopy(expr))
+
+
+def const_value(prog, fi, e):
+    """the constant an expression names: a literal, a module-level constant (also one imported from another module of
+    the package), a class-level constant read as `self.X` / `cls.X` / `ClassName.X`; None when it is none of these"""
+    from ..model import ClassInfo
+
+    if isinstance(e, ast.Constant):
+        return e
+
+    def class_const(ci, name):
+        for c in [k for k in prog.mro(ci) if isinstance(k, ClassInfo)]:
+            for st in c.node.body:
+                tgt = val = None
+                if isinstance(st, ast.Assign) and len(st.targets) == 1:
+                    tgt, val = st.targets[0], st.value
+                elif isinstance(st, ast.AnnAssign) and st.value is not None:
+                    tgt, val = st.target, st.value
+                if isinstance(tgt, ast.Name) and tgt.id == name:
+                    return val if isinstance(val, ast.Constant) else None
+        return None
+
+    if isinstance(e, ast.Name):
+        try:
+            vals = [g.value for g in prog.lookup(fi.module, e.id, fi.variant) if getattr(g, "kind", "") == "global" and isinstance(g.value, ast.Constant)]
+        except Exception:  # noqa: BLE001
+            vals = []
+        if len(vals) == 1 and e.id not in fi.param_names():
+            return vals[0]
+        from ..effects import module_const_env
+
+        try:
+            env = module_const_env(prog, fi.module)
+        except Exception:  # noqa: BLE001
+            env = {}
+        if e.id in env and isinstance(env[e.id], (int, str, float, bytes)) and e.id not in fi.param_names():
+            return ast.Constant(value=env[e.id])
+        return None
+    if isinstance(e, ast.Attribute) and isinstance(e.value, ast.Name):
+        if e.value.id in ("self", "cls"):
+            ci = fi.cls or (fi.parent.cls if fi.parent is not None else None)
+            origin = getattr(fi, "origin", None)
+            if ci is None and origin is not None:
+                ci = origin.cls
+            return class_const(ci, e.attr) if ci is not None else None
+        cis = [c for c in prog.find_classes(e.value.id) if fi.variant is None or getattr(c, "variant", None) in (None, fi.variant)] if e.value.id[:1].isupper() else []
+        vals = [class_const(c, e.attr) for c in cis]
+        if vals and all(v is not None for v in vals) and len({v.value for v in vals}) == 1:
+            return vals[0]
+    return None
